@@ -7,6 +7,8 @@ pub fn query<'a>(
     expr: &'a str,
     context: &mut eval::model::Context,
 ) -> error::Result<'a, eval::model::Value> {
+    // ExprWhitespace may be used before or after any token (XPath 1.0 3.7): also around the whole expression
+    let expr = expr.trim_matches(|c| matches!(c, ' ' | '\t' | '\r' | '\n'));
     let (rest, q) = expr::parse(expr).map_err(|v| error::Error::ExprSyntax(v.to_string()))?;
     if !rest.is_empty() {
         return Err(error::Error::ExprRemain(rest));
